@@ -1490,7 +1490,9 @@ fn run_graph(out: &mut Out, spec: &GSpec, profile: u64, rng: &mut Rng, thorough:
                 }
             }
         } else {
-            for _ in 0..(if thorough { 4 } else { 2 }) {
+            // first -> last node always (hand-written graphs put their source and sink there), then random pairs
+            pairs.push((l.nodes[0], l.nodes[n - 1]));
+            for _ in 0..(if thorough { 3 } else { 1 }) {
                 pairs.push((*rng.pick(&l.nodes), *rng.pick(&l.nodes)));
             }
         }
@@ -1581,6 +1583,13 @@ const CORPUS: &[(&str, u64)] = &[
     // max flow that has to undo flow along 1>2 (residual back edge)
     ("n=4;e=0>1:1,0>2:1,1>2:1,1>3:1,2>3:1;de=;dn=;db=0", 0),
     ("n=4;e=0>1:2,1>0:1,1>2:2,2>1:3,2>3:2,0>3:_;de=;dn=;db=1", 0),
+    // Edmonds-Karp must cancel flow: the only shortest augmenting path 0-1-2-7 blocks both 0-3-4-2-7 and 0-1-5-6-7;
+    // the second augmentation runs backwards through 2>1 (max flow 2; without the reverse residual update: 1)
+    ("n=8;e=0>1:1,1>2:1,2>7:1,0>3:1,3>4:1,4>2:1,1>5:1,5>6:1,6>7:1;de=;dn=;db=0", 0),
+    // union-find by rank: a rank-1 tree {4,5} joins a rank-2 tree {0,1,2,3} through its non-root member 5,
+    // then 4>1 must be recognised as closing a cycle, and 6>0 must still be accepted
+    ("n=7;e=0>1:1,2>3:1,1>3:2,4>5:3,5>0:4,4>1:5,6>0:6;de=;dn=;db=0", 0),
+    ("n=7;e=1>0:1,3>2:1,3>1:2,5>4:3,0>5:4,1>4:5,0>6:6;de=;dn=;db=1", 0),
     // witnesses of the findings K2..K5
     ("n=2;e=1>0:1;de=;dn=;db=0", 0),
     ("n=2;e=0>0:1,1>0:4;de=;dn=;db=0", 0),
